@@ -77,8 +77,16 @@ def symexpr(rng, params):
         e = e + c * t
     if rng.random() < 0.4:
         e = e + rng.choice([1, -0.25, sym.pi])
-    if rng.random() < 0.2:
-        e = -(syms[0] ** 2)
+    r = rng.random()
+    if r < 0.45:
+        # negated powers and products, rational and negative coefficients, powers in exponents
+        a = syms[0]
+        b = syms[-1] if len(syms) > 1 else sym.Symbol(names[0] + "z")
+        e = rng.choice([-(a ** 2), -(a ** 2) * b, -(a ** 2) / 3, -(a + b) ** 2, sym.Rational(-2, 3) * a ** 2, -(a ** 3) / b,
+                        b - (a ** 2) / 3, b ** (-(a ** 2)), -2 ** a + b, -(a ** 2) * b * sym.pi, sym.Rational(-1, 7) * a ** 2 * b,
+                        (a - b) ** 3 * (-1), -a * b ** 2, a / (b ** 2) - a ** 2, -(a * b) ** 2, 1 / (a + b) - a ** 2 / 5])
+    if not getattr(e, "free_symbols", None):
+        e = syms[0] * 2 + 1          # constant sympy numbers are not "expressions in named parameters"
     for s in e.free_symbols:
         params.add(s)
     return e
